@@ -70,6 +70,13 @@ CHECKS = {
        "and the header parser's own result (page size, change counter, cookie) against the spec. Real WAL files with unmerged frames, UTF-16le/be and legacy-format files are included.",
   note=NOTE + "single-byte patches only (multi-field combinations not enumerated); a different-but-legal page size on an existing file is not judged (file becomes inconsistent)",
   design="6 C15, 3.4"),
+ "C08": dict(
+  technique="TLA+ spec Reader.tla (dirty flag, header re-read, page cache, schema cache, fixed map) model-checked exhaustively; TLC-simulated behaviours replayed on a long-lived real handle against real SQLite commits; history validated by TLC (TraceReader.tla over BTree.tla)",
+  text="Reader.tla models the handle protocol and the writer's counters; TLC explores every interleaving of lock/header/page/schema steps with commits of kind dml/ddl/grow/vacuum/reuse (3.1M states) for Freshness, NoFalseError, HeaderCurrent, CacheCurrent. "
+       "Behaviours simulated from the same model (plus one fixed history with every commit kind incl. ALTER, CREATE/DROP TABLE/INDEX, growth, VACUUM, page-size-changing VACUUM, page reuse, no-op) are replayed: read brackets become real operations on ONE long-lived handle (high-level API and explicit RLock/RUnlock bracket), commits are real SQLite transactions in another process. "
+       "TraceReader.tla carries the handle state along, judges every read against the Reference on the page graph of the snapshot committed at that moment (independent reader, cross-checked with SQLite), and predicts exactly which pages must be re-read or may come from the cache; schema listings after DDL are compared with SQLite's.",
+  note=NOTE + "commits happen only between operations (guaranteed by the lock protocol, C06/C07); histories are sampled (seeded), the protocol model is exhaustive only in small scope (4 pages, 3 commits)",
+  design="6 C08, 3.5"),
 }
 
 NOT_YET = "check not built yet (work in progress; see DESIGN.md section 9 order of work)"
